@@ -31,7 +31,7 @@ from .common import dominates
 PROPERTY = 'C09'
 
 META = {
-    'bounds': {'quick': 'variation contract dim 1 (list/ndarray); step: N=2 parents, m<=2 objectives, offspring designs fresh or repeating a parent; generate: N in {2,3}; '
+    'bounds': {'quick': 'constrained step N=2; variation contract dim 1 (list/ndarray); step: N=2 parents, m<=2 objectives, offspring designs fresh or repeating a parent; generate: N in {2,3}; '
                         'pop_acceptance: n<=3, m<=2; skeletons N in {2,3}, G in {1,2}, <=1 injected transient failure',
                'thorough': 'variation contract dim<=2; step: N=3,m=1 and N=2,m=2 with constraints; pop_acceptance n<=4; skeletons G<=3, <=2 failures'},
     'stubs': ['self.generate in the step harness -> N fresh pairwise distinct unevaluated designs (contract proved in part 2)',
